@@ -9,6 +9,7 @@
 //!
 //! usage: stammiri <verif_seed> <scenario_index> [describe]
 
+use rayon::prelude::*;
 use stam::*;
 use std::sync::Arc;
 
@@ -55,6 +56,11 @@ enum ROp {
     ResourceJson(usize),
     DatasetJson(usize),
     Segmentation(usize),
+    /// the library's `.parallel()` adaptor on rayon's real pool (2 or 3 workers): Miri schedules the workers too
+    ParAnnotations(usize),
+    ParTextSelections(usize, usize),
+    ParData(usize),
+    ParResourceJson(usize),
 }
 
 struct Scenario {
@@ -96,9 +102,9 @@ fn gen(verif_seed: u64, index: u64, heavy: bool) -> Scenario {
             // regular expressions, the STAMQL parser and JSON serialisation cost seconds per call under Miri:
             // they are drawn rarely, the cheap search / conversion / iteration calls make up most of a scenario
             let kind = if heavy && r.below(4) == 0 {
-                *r.pick(&[2, 10, 12, 13, 14])
+                *r.pick(&[2, 10, 12, 13, 14, 19])
             } else {
-                *r.pick(&[0, 1, 3, 4, 5, 6, 7, 8, 9, 11, 15])
+                *r.pick(&[0, 1, 3, 4, 5, 6, 7, 8, 9, 11, 15, 16, 17, 18])
             };
             ops.push(match kind {
                 0 | 1 => ROp::FindText(res, r.pick(&needles).to_string()),
@@ -114,7 +120,11 @@ fn gen(verif_seed: u64, index: u64, heavy: bool) -> Scenario {
                 12 => ROp::StoreJson,
                 13 => ROp::ResourceJson(res),
                 14 => ROp::DatasetJson(0),
-                _ => ROp::Segmentation(res),
+                15 => ROp::Segmentation(res),
+                16 => ROp::ParAnnotations(2 + r.below(2)),
+                17 => ROp::ParTextSelections(res, 2 + r.below(2)),
+                18 => ROp::ParData(2 + r.below(2)),
+                _ => ROp::ParResourceJson(2),
             });
         }
         threads.push(ops);
@@ -236,6 +246,47 @@ fn run(store: &AnnotationStore, op: &ROp) -> String {
             Some(r) => r.segmentation().map(|t| format!("{}-{};", t.begin(), t.end())).collect(),
             None => "none".into(),
         },
+        ROp::ParAnnotations(n) => {
+            let f = |a: ResultItem<Annotation>| format!("{:?}|{}|{};", a.id(), a.text_join("/"), a.data().count());
+            let seq: Vec<String> = store.annotations().map(f).collect();
+            let par: Vec<String> = pool(*n).install(|| store.annotations().parallel().map(f).collect());
+            par_result(seq, par)
+        }
+        ROp::ParTextSelections(r, n) => match res(*r) {
+            Some(r) => {
+                let f = |t: ResultTextSelection| format!("{}-{}:{};", t.begin(), t.end(), t.annotations().count());
+                let seq: Vec<String> = r.textselections().map(f).collect();
+                let par: Vec<String> = pool(*n).install(|| r.textselections().parallel().map(f).collect());
+                par_result(seq, par)
+            }
+            None => "none".into(),
+        },
+        ROp::ParData(n) => {
+            let f = |d: ResultItem<AnnotationData>| format!("{:?}={}:{};", d.handle(), d.value(), d.annotations().count());
+            let seq: Vec<String> = store.data().map(f).collect();
+            let par: Vec<String> = pool(*n).install(|| store.data().parallel().map(f).collect());
+            par_result(seq, par)
+        }
+        ROp::ParResourceJson(n) => {
+            let f = |r: ResultItem<TextResource>| r.as_ref().to_json_string().unwrap_or_else(|e| format!("ERR {}", e));
+            let seq: Vec<String> = store.resources().map(f).collect();
+            let par: Vec<String> = pool(*n).install(|| store.resources().parallel().map(f).collect());
+            par_result(seq, par)
+        }
+    }
+}
+
+fn pool(n: usize) -> rayon::ThreadPool {
+    rayon::ThreadPoolBuilder::new().num_threads(n).build().expect("rayon pool")
+}
+
+/// the parallel adaptor must give the sequential iteration's items in the same order; the string is
+/// what the thread "obtained" and is compared with the solo run like every other result
+fn par_result(seq: Vec<String>, par: Vec<String>) -> String {
+    if seq == par {
+        par.concat()
+    } else {
+        format!("PARALLEL-DIFFERS seq={:?} par={:?}", seq, par)
     }
 }
 
@@ -330,5 +381,9 @@ fn opname(op: &ROp) -> &'static str {
         ROp::ResourceJson(..) => "resource_json",
         ROp::DatasetJson(..) => "dataset_json",
         ROp::Segmentation(..) => "segmentation",
+        ROp::ParAnnotations(..) => "parallel_annotations",
+        ROp::ParTextSelections(..) => "parallel_textselections",
+        ROp::ParData(..) => "parallel_data",
+        ROp::ParResourceJson(..) => "parallel_resource_json",
     }
 }
